@@ -122,6 +122,20 @@ def is_solved(shr_domains_stack: NDArray, stacks_top: NDArray) -> bool:
 
 
 @njit(cache=True)
+def is_domain_empty(shr_domains_stack: NDArray, stacks_top: NDArray, dom_indices_arr: NDArray, var_idx: int) -> bool:
+    """
+    Returns true iff the domain of a variable is empty.
+    :param shr_domains_stack: the stack of shared domains
+    :param stacks_top: the index of the top of the stacks as a Numpy array
+    :param dom_indices_arr: the domain indices
+    :param var_idx: the index of the variable
+    :return: a boolean
+    """
+    shr_domain = shr_domains_stack[stacks_top[0], dom_indices_arr[var_idx]]
+    return bool(shr_domain[MIN] > shr_domain[MAX])
+
+
+@njit(cache=True)
 def decrease_max(
     shr_domains_stack: NDArray,
     stacks_top: NDArray,
